@@ -278,7 +278,8 @@ def bounded(ctx, b):
         """node shapes differ from caption to caption: text / break / text, a single text, ending with a
         break, starting with a break"""
         a, b_ = (CaptionNode.TEXT, f"a{i}"), (CaptionNode.TEXT, f"b{i}")
-        return [[a, BRK_, b_], [a], [a, BRK_], [BRK_, a]][i % 4]
+        # (... and captions whose text is blank: they are captions like any other)
+        return [[a, BRK_, b_], [a], [(CaptionNode.TEXT, " ")], [a, BRK_], [BRK_, a], [(CaptionNode.TEXT, "\xa0")], [(CaptionNode.TEXT, "")]][i % 7]
 
     def build(desc):
         return [CaptionNode.create_break() if k == CaptionNode.BREAK else T(v) for k, v in desc]
